@@ -321,6 +321,11 @@ class C14(LoopProp):
                 lens = [ob] * max(0, nfull) + ([rng.choice([0, 1, ob - 1])] if rng.random() < 0.8 else [])
                 L.append("cli d %d %d %d %d %s - %s %s" % (b, w, t, clean, hx(name), reply, ",".join(map(str, lens)) or "-"))
         L += wrap_cli_lines()
+        # directed: a peer that acknowledges fewer options than asked and then sends DATA longer than the block size the client is left with:
+        # the client's receive buffer cuts them (recv_with_size), it neither fails nor stores the excess
+        for line in ["cli d 511 4 1 0 %s - oack:windowsize:4 512,512,512,512,512,511", "cli d 16 3 5 0 %s - oack:windowsize:2 512,512,1",
+                     "cli d 8 3 5 1 %s - oack:windowsize:2 512,0", "cli d 100 3 255 1 %s - oack:windowsize:2 512,1"]:
+            L.append(line % hx("sub/f.bin"))
         # directed: the client retransmits after ITS negotiated timeout (real time, 1 s): the peer acknowledges the options and falls silent
         for (b, w) in [(512, 1), (8, 3)]:
             L.append("cli u %d %d 1 1 %s gen:%d:7 oack:blksize:%d,windowsize:%d,timeout:1 R" % (b, w, hx("f.bin"), 2 * w * b + 5, b, w))
